@@ -378,7 +378,21 @@ def gen_C18(v, n):
             versions = sorted(set(rng.sample(range(990, 1000), rng.randint(1, 4)) + [999]))
         else:
             versions = [rng.choice([1, 998, 999])]
-        out.append(_op("C18", {"task": task, "tail": tail, "versions": versions, "publish": rng.choice([0, 3, 8])}))
+        others = []
+        if tail and rng.random() < 0.5:
+            # newer (and older) versions that lack this state / file: same type, another state or extension
+            sk = keys.index("state") if "state" in keys else None
+            f2 = list(fields)
+            if sk is not None:
+                alt = [w for w in (v.closed.get("state") or []) if w != fields[sk][1]]
+                if alt:
+                    f2[sk] = ("state", rng.choice(alt))
+                    tail2 = "/" + "/".join(val for _, val in f2[i + 1:])
+                    top = max(versions) if versions else 0
+                    for n in sorted(set(rng.sample(range(1, min(999, top + 6) + 1), min(3, min(999, top + 6))) + ([top + 1] if top < 999 else []))):
+                        if n not in versions:
+                            others.append([n, tail2])
+        out.append(_op("C18", {"task": task, "tail": tail, "versions": versions, "others": others, "publish": rng.choice([0, 3, 8])}))
     return out
 
 
